@@ -8,7 +8,19 @@ import (
 	"math/rand"
 )
 
-var plainContainerTypes = []string{"moov", "trak", "mdia", "minf", "stbl", "dinf", "edts", "mvex", "moof", "traf", "mfra", "udta", "sinf", "schi", "ludt"}
+var plainContainerTypes = []string{"moov", "trak", "mdia", "minf", "stbl", "dinf", "edts", "mvex", "moof", "traf", "mfra", "udta", "sinf", "schi", "ludt",
+	"stsd", "dref", "avc1", "avc3", "hvc1", "hev1", "encv", "av01", "vp08", "vp09"}
+
+// prefixLen: bytes between the header and the first child (Model/Tree.lean `prefixed`)
+func prefixLen(t string) int {
+	switch t {
+	case "stsd", "dref":
+		return 8
+	case "avc1", "avc3", "hvc1", "hev1", "encv", "av01", "vp08", "vp09":
+		return 78
+	}
+	return 0
+}
 
 func isPlainContainer(t string) bool {
 	for _, p := range plainContainerTypes {
@@ -31,7 +43,10 @@ func allModelled(bs []byte, depth int) bool {
 	if binary.BigEndian.Uint32(bs) == 1 {
 		return true // rejected before any child is looked at
 	}
-	p := bs[8:]
+	if len(bs) < 8+prefixLen(typ) {
+		return true // rejected: the prefix does not fit
+	}
+	p := bs[8+prefixLen(typ):]
 	for len(p) >= 8 {
 		sz := uint64(binary.BigEndian.Uint32(p))
 		if sz == 1 {
@@ -76,7 +91,12 @@ var likelyChildren = map[string][]string{
 	"trak": {"tkhd", "edts", "mdia", "free"},
 	"mdia": {"mdhd", "hdlr", "minf", "free"},
 	"minf": {"vmhd", "smhd", "nmhd", "sthd", "dinf", "stbl"},
-	"stbl": {"stts", "ctts", "stsc", "stsz", "stco", "co64", "stss", "sdtp", "sbgp", "subs", "saiz", "saio"},
+	"stsd": {"avc1", "hvc1", "encv", "hev1", "avc3", "av01", "vp09", "vp08"},
+	"dref": {"free", "skip", "cdat"},
+	"avc1": {"btrt", "pasp", "clap", "SmDm", "CoLL", "sinf"}, "avc3": {"btrt", "pasp"}, "hvc1": {"btrt", "pasp", "clap", "sinf"},
+	"hev1": {"btrt", "pasp"}, "encv": {"sinf", "btrt", "pasp", "sinf"}, "av01": {"av1C", "btrt", "pasp"},
+	"vp08": {"vpcC", "btrt"}, "vp09": {"vpcC", "btrt", "SmDm", "CoLL"},
+	"stbl": {"stsd", "stts", "ctts", "stsc", "stsz", "stco", "co64", "stss", "sdtp", "sbgp", "subs", "saiz", "saio"},
 	"edts": {"elst", "elst", "elst", "elst", "free"},
 	"mvex": {"mehd", "trex", "trex", "leva"},
 	"moof": {"mfhd", "traf", "traf", "pssh", "free"},
@@ -85,13 +105,14 @@ var likelyChildren = map[string][]string{
 	"udta": {"cdat", "free", "kind"},
 	"sinf": {"frma", "schm", "schi"},
 	"schi": {"tenc", "free"},
-	"dinf": {"free"},
+	"dinf": {"dref", "free"},
 	"ludt": {"free"},
 }
 
 func randTree(r *rand.Rand, pool map[string][][]byte, types []string, typ string, depth int) []byte {
 	var payload []byte
 	n := r.Intn(6)
+	nkids := 0
 	for i := 0; i < n; i++ {
 		var ct string
 		if l := likelyChildren[typ]; len(l) > 0 && r.Intn(8) != 0 {
@@ -106,9 +127,32 @@ func randTree(r *rand.Rand, pool map[string][][]byte, types []string, typ string
 				continue
 			}
 			payload = append(payload, randTree(r, pool, types, ct, depth+1)...)
+			nkids++
 		} else if l := pool[ct]; len(l) > 0 {
 			payload = append(payload, l[r.Intn(len(l))]...)
+			nkids++
 		}
+	}
+	if pl := prefixLen(typ); pl > 0 {
+		pre := make([]byte, pl)
+		for i := range pre {
+			if r.Intn(3) != 0 {
+				pre[i] = byte(r.Intn(256))
+			}
+		}
+		switch pl {
+		case 8: // version, flags, entry count (mostly the right one)
+			cnt := nkids
+			if r.Intn(10) == 0 {
+				cnt += r.Intn(3) - 1
+			}
+			binary.BigEndian.PutUint32(pre[4:], uint32(cnt))
+		case 78: // compressor name length byte at offset 42, at most 31 (mostly)
+			if r.Intn(12) != 0 {
+				pre[42] = byte(r.Intn(32))
+			}
+		}
+		payload = append(pre, payload...)
 	}
 	switch r.Intn(24) {
 	case 0: // stray tail shorter than a header
